@@ -42,9 +42,12 @@ def gen_net(rng, tier):
         plan = [['until', nums.pop(0)] if p[0] == 'until' else p for p in plan]
         plan.append(['run'])
         return {'engine': 'N', 'pipe': pipe, 'drive': plan}
-    kind = rng.choice(['DRR', 'DRR', 'WFQ', 'WRR', None, None])
+    kind = rng.choice(['DRR', 'DRR', 'WFQ', 'WFQ', 'WRR', None, None])
     net = sched.gen_sched_case(rng, tier, kind=kind, monitor=False, many_to_one=False,
                                static=rng.random() < 0.3)
+    if net['kind'] == 'WFQ' and rng.random() < 0.6:
+        # decimal weights: their sum depends on the order of the additions (a set of string ids iterates in hash order)
+        net['table'] = [[c, rng.choice([0.1, 0.2, 0.3, 0.7, 0.15, 0.05])] for c, _v in net['table']]
     if rng.random() < 0.7 and all(isinstance(f, int) for f in net['flows']):
         m = dict((f, NAMES[f % len(NAMES)] + (str(f) if f >= len(NAMES) else '')) for f in net['flows'])
         net['flows'] = [m[f] for f in net['flows']]
@@ -99,7 +102,12 @@ def run_net(case):
             _b, _g, restore = c08.build_pipeline(w, pipe)
         else:
             s, f2c = sched.build(w, net)
-            s.out = OutTap(w, 's', s, Recorder(w, 'sink'))
+
+            def public_state(elem, p):
+                # the scheduler's public virtual-time state is part of what a program can observe
+                return (getattr(elem, 'vtime', None),
+                        tuple(sorted((repr(k), v) for k, v in getattr(elem, 'finish_times', {}).items())))
+            s.out = OutTap(w, 's', s, Recorder(w, 'sink'), post=public_state)
             start_injector(w, InTap(w, 's', s), [tuple(x) for x in net.get('workload', [])])
         try:
             return _drive_net(w, plan)
